@@ -150,7 +150,13 @@ class Exec:
             if inner.startswith("*"):
                 b = self.read_place(env, inner[1:])
                 if b[0] == "opq":
-                    return ("opq", b[1])   # deref of an opaque reference: same abstract object
+                    # deref of an opaque reference: the same abstract object; a reference to a scalar
+                    # (`&usize`, `&bool`) yields the scalar it points to
+                    lty = self.fn.locals.get(inner[1:].strip(), "")
+                    m2 = re.match(r"^&(?:'\w+ )?(?:mut )?(\w+)$", lty.strip())
+                    if m2 and sort_of(m2.group(1)):
+                        return self.typed_fresh(b[1], m2.group(1))
+                    return ("opq", b[1])
                 return b
             # split at nesting depth 0: "<base> as <Variant>"  or  "<base>.<k>: <type>"
             depth, cut_as, cut_field = 0, None, None
